@@ -136,8 +136,8 @@ def ref_multiply(data, mdata, box, fill_value=0.0):
     return out if hit else None
 
 
-def near(obs, exp, scale, rtol):
-    """Scalar comparison with the tolerance rtol*scale (scale >= |exp|).
+def near(obs, exp, scale, rtol, atol=0.0):
+    """Scalar comparison with the tolerance rtol*scale + atol (scale >= |exp|).
     Non-finite expected values must be reproduced exactly (NaN==NaN).
     Returns (ok, deviation relative to scale)."""
     obs, exp = float(obs), float(exp)
@@ -152,9 +152,11 @@ def near(obs, exp, scale, rtol):
     if d == 0.0:
         return True, 0.0
     s = max(scale, abs(exp))
+    if d <= atol:
+        return True, (d / s if s > 0 else 0.0)
     if s == 0.0:
         return False, float('inf')
-    return d <= rtol * s, d / s
+    return d <= rtol * s + atol, d / s
 
 
 def selftest():
